@@ -66,6 +66,14 @@ psutil_proc_ioprio_set(PyObject *self, PyObject *args) {
             args, _Py_PARSE_PID "ii", &pid, &ioclass, &iodata)) {
         return NULL;
     }
+    // The kernel's ioprio is 3 class bits + 13 data bits; anything else
+    // would overflow the shift below. Answer as the kernel does for an
+    // invalid ioprio.
+    if (ioclass < 0 || ioclass > 7 || iodata < 0
+            || iodata > (int)IOPRIO_PRIO_MASK) {
+        errno = EINVAL;
+        return PyErr_SetFromErrno(PyExc_OSError);
+    }
     ioprio = IOPRIO_PRIO_VALUE(ioclass, iodata);
     retval = ioprio_set(IOPRIO_WHO_PROCESS, pid, ioprio);
     if (retval == -1)
